@@ -18,10 +18,12 @@
 //! The concretisations are written from the module documentation and Costantini et al., "Static Analysis of String
 //! Values": CI  Value(certain, possible) = { s | certain <= chars(s) <= possible };  brick [S]^{min,max} = all
 //! concatenations of k strings of S with min <= k <= max; a brick list = concatenation of one member per brick; Top = all.
-//! `disagreements` counts wrong results only.  A panic of the real function (`panics`: Top operands of widen / normalize, u32
-//! overflow in rule 4 in debug builds) and a call that does not return within the time limit (`hangs`: normalize / merge do not
-//! terminate on some inputs, see the findings of unit `bricks`) are counted separately; `replay` of a hanging input answers
-//! `agrees: false`.
+//! Bricks twins: a wrong result, a panic of the real function and a call that does not return within the time limit (`hangs`;
+//! the bounded stand-in for termination, run in a child process that the parent kills) are all disagreements.  Top operands of
+//! widen / normalize (the documented unwrap_value panic) are not generated.  Both classes were real once: before /repo commit
+//! 8a58ccd normalize did not terminate (rule 4 / rule 5 ping-pong) and rule 4 overflowed u32 (seeded/findings/C06-*.json).
+//! Character-inclusion twins: `panics` (merge of values whose certain set is `Top`, CharacterSet::intersection's documented
+//! panic) are counted separately and are not disagreements.
 use crate::util::Rng;
 use cwe_checker_lib::abstract_domain::{
     AbstractDomain, BrickDomain, BricksDomain, CharacterInclusionDomain, CharacterSet, DomainInsertion,
@@ -211,12 +213,8 @@ pub fn search(twin: &str, _case: Option<&str>, seed: u64) -> Option<Value> {
         ci_sweep(twin).3
     } else {
         let r = br_sweep(twin, seed);
-        // a wrong result first; a call that does not return is the class recorded in known_findings.txt (normalize does not
-        // terminate): reported with `known_only` so that it is printed, not counted as a new hit
-        r.first.or(r.first_hang.map(|mut h| {
-            h["known_only"] = json!(true);
-            h
-        }))
+        // a wrong result first, then a call that did not return, then a panic: each is a disagreement
+        r.first.or(r.first_hang).or(r.first_panic)
     }
 }
 
@@ -252,7 +250,7 @@ pub fn sweep(twin: &str, seed: u64) -> Value {
         json!({"cases": cases, "evaluations": cases, "disagreements": bad, "panics": panics, "first": first})
     } else {
         let r = br_sweep(twin, seed);
-        json!({"cases": r.cases, "evaluations": r.cases, "disagreements": r.bad, "wrong_results": r.bad, "panics": r.panics, "hangs": r.hangs, "skipped_after_hangs": r.skipped,
+        json!({"cases": r.cases, "evaluations": r.cases, "disagreements": r.bad + r.hangs + r.panics, "wrong_results": r.bad, "panics": r.panics, "hangs": r.hangs, "skipped_after_hangs": r.skipped,
             "first": r.first, "first_hang": r.first_hang, "first_panic": r.first_panic})
     }
 }
@@ -609,7 +607,12 @@ fn br_inputs(twin: &str, seed: u64) -> Vec<Value> {
                 }
             }
             for i in 0..3000 {
-                out.push(json!({"x": mbricks_json(&br_random_list(&mut rng, i % 2 == 0, 4))}));
+                let x = br_random_list(&mut rng, i % 2 == 0, 4);
+                if x.is_none() {
+                    // normalize panics on the Top list (merge tests for it before)
+                    continue;
+                }
+                out.push(json!({"x": mbricks_json(&x)}));
             }
         }
         "c06.br_loop" => {
@@ -669,8 +672,8 @@ fn br_inputs(twin: &str, seed: u64) -> Vec<Value> {
         }
         _ => {}
     }
-    // inputs on which normalize is likely not to return (a brick with 1 <= min < max, or neighbours with the same strings that
-    // rule 4 would merge into such a brick: see the findings of unit `bricks`) go last: a call that does not return costs
+    // inputs of the shape on which normalize did not return before /repo commit 8a58ccd (a brick with 1 <= min < max, or
+    // neighbours with the same strings that rule 4 merged into such a brick) go last: a call that does not return costs
     // BR_LIMIT_MS and the sweep stops after BR_MAX_HANGS of them
     let (late, mut early): (Vec<Value>, Vec<Value>) = out.into_iter().partition(br_hang_prone);
     early.extend(late);
@@ -809,7 +812,6 @@ fn br_sweep(twin: &str, seed: u64) -> BrResult {
 fn br_replay(twin: &str, input: &Value) -> Value {
     match br_check(twin, input) {
         BrVerdict::Agrees => json!({"agrees": true}),
-        BrVerdict::Disagrees(d) | BrVerdict::Hung(d) => json!({"agrees": false, "expected": d["expected"], "got": d["got"]}),
-        BrVerdict::Panicked(d) => json!({"agrees": true, "panicked": true, "got": d["got"]}),
+        BrVerdict::Disagrees(d) | BrVerdict::Hung(d) | BrVerdict::Panicked(d) => json!({"agrees": false, "expected": d["expected"], "got": d["got"]}),
     }
 }
